@@ -60,7 +60,8 @@ What is PROVED (all histories, all flush placements):
   for them is the specification's `DS.members`; the declared sets are `DS.activeSets`;
 * `calc_history_independent_partial` — the END-TO-END statement `accumulate (run h) = fresh (lastState h)`,
   derived from all of the above.  Its hypothesis `RemainingContract` no longer contains ANY obligation of a
-  graph node: it consists of well-formedness facts only — `idInj` (the IP-set id hash does not collide),
+  graph node: it consists of well-formedness facts only — `idInj` (the IP-set id hash does not collide on the
+  definitions IN PLAY at the end of the history: `InPlay`),
   `keyU` (distinct policy tie-break strings), `sawInSync`, `wellFormed` (consistent numbering; every policy
   selector passes `selector.Validate`, i.e. what the ValidationFilter lets through; network-set prefixes fit
   the address width).  `_partial` = the UNMODELLED nodes (routes/VTEPs, …, see Model/C01 header).  The model
@@ -184,11 +185,45 @@ theorem selParses_of_valid {u : Upd} (h : selValid u) : selParses u := by
       rfl
   | _ => trivial
 
+/-- the selector texts the rule scanner parses for one rule (`extractSelectors`, i.e. after
+`combineMatchesIfPossible`) -/
+def scannedSels (r : RuleIn) : List Str :=
+  [(combine r.srcSel r.notSrcSel).1, (combine r.srcSel r.notSrcSel).2,
+   (combine r.dstSel r.notDstSel).1, (combine r.dstSel r.notDstSel).2]
+
+/-- every non-empty selector the rule scanner parses for this rule is accepted by the parser.  (The Go code
+PANICS otherwise — "Failed to parse selector that should have been validated already" — while the model's
+`selList` would silently drop the selector: histories violating this are outside the theorem.  The
+ValidationFilter validates each of the four rule selectors with the same struct-tag validator as the policy
+selector; that the combined text `(pos) && (!(neg))` of two accepted selectors is accepted is a property of the
+parser that is NOT proved here.) -/
+def ruleParses (r : RuleIn) : Prop := ∀ raw ∈ scannedSels r, raw = [] ∨ (canonSel raw).isSome = true
+
+def rulesParse (rs : RulesIn) : Prop := ∀ r ∈ rs.inbound ++ rs.outbound, ruleParses r
+
+/-- RULE SELECTORS PARSE: for the rules a policy / profile update carries -/
+def rulesOk : Upd → Prop
+  | .policy _ _ (some pv) => rulesParse pv.rules
+  | .profRules _ (some r) => rulesParse r
+  | _ => True
+
+/-- under `ruleParses` the model's silent-drop branch of `selList` is never taken: a non-empty scanned selector
+contributes exactly its canonical text, as in the Go code -/
+theorem selList_no_silent_drop {r : RuleIn} (h : ruleParses r) {raw : Str} (hm : raw ∈ scannedSels r) (hne : raw ≠ []) :
+    ∃ t, canonSel raw = some t ∧ selList raw = [t] := by
+  rcases h raw hm with h0 | h0
+  · exact absurd h0 hne
+  · cases hc : canonSel raw with
+    | none => rw [hc] at h0; cases h0
+    | some t => exact ⟨t, rfl, by simp [selList, hne, hc]⟩
+
 /-- WELL-FORMED history: consistent numbering, every policy selector passes `selector.Validate`, and
-network-set prefixes are no longer than the address width (`netsOk`; every `net.IPNet` satisfies it) -/
+network-set prefixes are no longer than the address width (`netsOk`; every `net.IPNet` satisfies it), and every
+selector the rule scanner parses for the rules of a policy / profile update is accepted by the parser (`rulesOk`:
+outside it the Go code panics and the model silently drops the selector — see `ruleParses`) -/
 def WellFormed (N : Numbering) (h : List HStep) : Prop :=
   ∀ st ∈ h, match st with
-    | .upd u => N.updOk u ∧ selValid u ∧ netsOk u
+    | .upd u => N.updOk u ∧ selValid u ∧ netsOk u ∧ rulesOk u
     | _ => True
 
 theorem WellFormed.netsOk {N : Numbering} {h : List HStep} (hw : WellFormed N h) :
@@ -198,7 +233,7 @@ theorem WellFormed.netsOk {N : Numbering} {h : List HStep} (hw : WellFormed N h)
   intro st hst
   have := hw st hst
   cases st with
-  | upd u => exact this.2.2
+  | upd u => exact this.2.2.1
   | inSync => trivial
   | flush => trivial
 
@@ -218,12 +253,20 @@ theorem WellFormed.stepOk {N : Numbering} {h : List HStep} (hw : WellFormed N h)
   | inSync => trivial
   | flush => trivial
 
+/-- The IP-set definitions IN PLAY at the end of a history: those the rule scanner holds in `ipSetsByUID` and
+those the specification's active policies / profiles reference (`DS.activeSets`). -/
+def InPlay (H : IdFn) (s : Bool) (h : List HStep) (d : IpSetDef) : Prop :=
+  (∃ u, mget (run H (Graph.new s) (h ++ [.flush])).1.rs.sets u = some d) ∨
+  (∃ u, mget ((lastState h).activeSets H) u = some d)
+
 /-- The hypotheses of the end-to-end theorem.  NOTHING about the graph's behaviour is assumed any more — every
 node obligation is discharged (see the theorems of this file); what is left are WELL-FORMEDNESS facts about the
 history and the id function.  (The name is kept from the time it listed the open node obligations.) -/
 structure RemainingContract (H : IdFn) (s : Bool) (h : List HStep) : Prop where
-  /-- the IP-set id function does not collide (`IPSetData.UniqueID()` is a hash: "hash collisions aside") -/
-  idInj : ∀ d d' : IpSetDef, H d = H d' → d = d'
+  /-- the IP-set id function does not collide ON THE DEFINITIONS IN PLAY (`IPSetData.UniqueID()` is a fixed-width
+  hash: no real `H` is injective on all definitions, but on a concrete history it is unless two sets in play
+  actually collide) -/
+  idInj : ∀ d d' : IpSetDef, H d = H d' → InPlay H s h d → InPlay H s h d' → d = d'
   /-- the policy keys in the history have pairwise different `name/namespace/kind` tie-break strings (C03's
   `KeyU`; true of validated Calico names, which contain no '/') -/
   keyU : C03.KeyU (histKeys h)
@@ -233,7 +276,8 @@ structure RemainingContract (H : IdFn) (s : Bool) (h : List HStep) : Prop where
   /-- the history is WELL-FORMED (`WellFormed`): the harness's endpoint / policy numbers are consistent with the
   real keys (number ↦ key injective, locality a function of the number — the host name is part of the key);
   every policy selector passes `selector.Validate`, which is exactly what the ValidationFilter demands of a
-  policy it lets through (`validate:"selector"`); network-set prefixes fit the address width -/
+  policy it lets through (`validate:"selector"`); network-set prefixes fit the address width; every selector the
+  rule scanner parses for a rule is accepted by the parser (`rulesOk` — otherwise the Go code panics) -/
   wellFormed : ∃ N : Numbering, WellFormed N h
 
 /-- RESOLVER TABLES = DATASTORE (all consistently numbered histories, any flush placement): after the
@@ -385,7 +429,8 @@ theorem active_profiles_eq_spec_partial (H : IdFn) (s : Bool) (h : List HStep) (
   rw [mget_map_val (fun _ (v : RulesIn) => (⟨v.tag, refsOf H v⟩ : Rules))]
   cases mget (lastState h).activeProfs p <;> rfl
 
-/-- DECLARED IP SETS = SPECIFICATION (all well-formed histories, collision-free id function, any flush placement):
+/-- DECLARED IP SETS = SPECIFICATION (all well-formed histories, id function collision-free on the definitions IN
+PLAY — `InPlay`: held by the rule scanner or referenced by the specification at the end —, any flush placement):
 after the final flush the declared IP sets are exactly the sets referenced by the specification's active
 policies / profiles (`DS.activeSets`), and each holds exactly the string images of `DS.members`: the members
 contributed by every endpoint / network set in the datastore whose effective labels (own, then the listed
@@ -395,7 +440,7 @@ Proof: `member_index_eq_c04_spec_partial`; the member index's tables are the dat
 (`XInv`); C04's `memberSpec` for those tables is `DS.members` (`memberSpec_iff`); the rule scanner's in-use sets
 are the specification's (`declared_eq_rulescanner_partial` + the two ACTIVE … = SPEC theorems). -/
 theorem declared_ipsets_eq_spec_partial (H : IdFn) (s : Bool) (h : List HStep) (N : Numbering)
-    (hw : WellFormed N h) (hinj : ∀ d d' : IpSetDef, H d = H d' → d = d') :
+    (hw : WellFormed N h) (hinj : ∀ d d' : IpSetDef, H d = H d' → InPlay H s h d → InPlay H s h d' → d = d') :
     (decl (run H (Graph.new s) (h ++ [.flush])).1).ipsets = (fresh H s (lastState h)).toDP.ipsets := by
   have hN := hw.stepOk
   have hx := stable_flush (xInv_stable N H s _) (xInv_run h (xInv_new N H s) hN)
@@ -415,7 +460,7 @@ theorem declared_ipsets_eq_spec_partial (H : IdFn) (s : Bool) (h : List HStep) (
   have hpk : (mkeys (lastState h).activePols).Nodup :=
     (nodup_keys_filterMap _ (lastState h).pols (polKeys_nodup (tabInv_run H h (tabInv_new N s) hN).polsConf hd.pols)).1
   funext id
-  exact ipsets_eq_fresh hx hc.rs hc.ii hd hnn hinj
+  exact ipsets_eq_fresh hx hc.rs hc.ii hd hnn (fun d d' e h1 h2 => hinj d d' e (Or.inl h1) (Or.inr h2))
     (fun k => active_policies_eq_datastore H s h N hw.histOk k) hpk
     (fun p => activeProfs_eq_ds hpi ht hd (active_profiles_eq_c05_spec_partial H s (h ++ [.flush]) p)) id
 
@@ -586,7 +631,7 @@ def exNumbering : Numbering where
     exact showNatL_inj h
 
 theorem exHist_contract : RemainingContract injH true exHist := by
-  refine ⟨injH_inj, ⟨?_⟩, by simp [exHist], ⟨exNumbering, ?_⟩⟩
+  refine ⟨fun d d' e _ _ => injH_inj d d' e, ⟨?_⟩, by simp [exHist], ⟨exNumbering, ?_⟩⟩
   · -- the two policy keys in play: the zero key and `pol0`
     have hk : ∀ k, histKeys exHist k → k = default ∨ k = ⟨"pol0", "", "gnp"⟩ := by
       intro k hk
@@ -603,25 +648,36 @@ theorem exHist_contract : RemainingContract injH true exHist := by
   · intro st hst
     simp only [exHist, List.mem_cons, List.not_mem_nil, or_false] at hst
     rcases hst with rfl | rfl | rfl | rfl | rfl | rfl | rfl | rfl | rfl | rfl | rfl | rfl | rfl
-    · exact ⟨trivial, trivial, trivial⟩
-    · refine ⟨?_, ?_, trivial⟩
+    · exact ⟨trivial, trivial, trivial, trivial⟩
+    · refine ⟨?_, ?_, trivial, ?_⟩
       · show (⟨"pol0", "", "gnp"⟩ : PolicyKey) = exNumbering.pk 0
         decide
       · show C06.validate exPol.sel = .ok ()
         rfl
-    · refine ⟨⟨?_, rfl⟩, trivial, trivial⟩
+      · show rulesParse exPol.rules
+        intro r hr
+        simp only [exPol, List.append_nil, List.mem_singleton] at hr
+        subst hr
+        intro raw hraw
+        simp only [scannedSels, combine, List.mem_cons, List.not_mem_nil, or_false] at hraw
+        rcases hraw with rfl | rfl | rfl | rfl
+        · exact Or.inr rfl
+        · exact Or.inl rfl
+        · exact Or.inl rfl
+        · exact Or.inl rfl
+    · refine ⟨⟨?_, rfl⟩, trivial, trivial, trivial⟩
       show EpKey.wep "w0" = exNumbering.ek 0
       decide
     · trivial
-    · exact ⟨trivial, trivial, trivial⟩
+    · exact ⟨trivial, trivial, trivial, trivial⟩
     · trivial
     · trivial
-    · exact ⟨trivial, trivial, trivial⟩
-    · exact ⟨trivial, trivial, trivial⟩
-    · exact ⟨trivial, trivial, trivial⟩
-    · exact ⟨trivial, trivial, trivial⟩
-    · exact ⟨trivial, trivial, trivial⟩
-    · exact ⟨trivial, trivial, trivial⟩
+    · exact ⟨trivial, trivial, trivial, trivial⟩
+    · exact ⟨trivial, trivial, trivial, trivial⟩
+    · exact ⟨trivial, trivial, trivial, trivial⟩
+    · exact ⟨trivial, trivial, trivial, trivial⟩
+    · exact ⟨trivial, trivial, trivial, trivial⟩
+    · exact ⟨trivial, trivial, trivial, trivial⟩
 
 /-- hence, with NO further assumption: everything the model emits for the example history accumulates to what a
 fresh Felix emits for its final datastore state -/
